@@ -362,7 +362,10 @@ def good_reply_for(e, std, rng, p2=None):
         f = bytes([SID[e[0]], 1, 0, 0, 0])
     if e[0] == 'cs':
         a, b = p2 if p2 else (rng.choice([125, 250, 1000, 8000]), rng.choice([25, 50, 100, 500]))
-        return bytes([0x50, f[1]]) + (a.to_bytes(2, 'big') + b.to_bytes(2, 'big') if std >= 2013 else b'')
+        if std >= 2013:
+            return bytes([0x50, f[1]]) + a.to_bytes(2, 'big') + b.to_bytes(2, 'big')
+        # 2006 edition: a manufacturer-specific parameter record of any length, four bytes included (not a timing record there)
+        return bytes([0x50, f[1]]) + rng.choice([b'', b'', a.to_bytes(2, 'big') + b.to_bytes(2, 'big'), b'\x12\x34', b'\x00\x32\x01\xf4\x05'])
     if e[0] == 'lc':
         return bytes([0xC7, f[1]])
     return entries.good_reply(f, None, {'standard_version': std})
